@@ -400,7 +400,7 @@ func (s *supervisor) judge(pl []planned) ev.Coverage {
 		"distinct_nontrivial": nontrivial.Distinct(),
 		"rule": fmt.Sprintf("%d fixed programs x %s. Dimensions: executor{local, in-process cluster}; cluster machines{1,2,3}, procs/machine{1,2,4}, MaxLoad{0.01,0.5,0.95}, DoShuffleReaders{on,off}; Parallelism{1,2,4}; MachineCombiners{off,on}; vector size{1,2,4,128}; sort canary{1,2,256}; spill batch{1,4,128}; pragma{Procs(2) (cluster only), Exclusive, Materialize} at every position that accepts one. A cache program counts as two evaluations (cold, warm). Non-trivial = distinct (program, phase, configuration) whose program contains >=1 shuffle and that produced >=1 row in a judged failure-free run.",
 			len(programs), tier),
-		"programs":                                                    progNames,
+		"program_names":                                               progNames,
 		"planned_program_configurations":                              len(pl),
 		"distinct_configurations":                                     len(cfgAll),
 		"runs_judged":                                                 judged,
